@@ -142,6 +142,7 @@ def audio_defs():
         "audio head slice gf 0 12000",
         "audio mid slice gf 7000 14000",
         "audio cut slice gf 0 21000",
+        "audio cut20 slice gf 0 20000",
         "audio tail slice gf 20000 -1",
         "audio t0 slice gf 0 0",
         "audio t1 slice gf 8000 100",
@@ -155,7 +156,7 @@ def audio_defs():
 
 
 AUDIO_LEN = {"gf": 44580, "gff": 57344, "rev": 44580, "clip": 44580, "quiet": 44580, "sil": 16000, "noise": 20000,
-             "gf2": 89160, "head": 12000, "mid": 14000, "cut": 21000, "tail": 24580, "t0": 0, "t1": 100, "t2": 410,
+             "gf2": 89160, "head": 12000, "mid": 14000, "cut": 21000, "cut20": 20000, "tail": 24580, "t0": 0, "t1": 100, "t2": 410,
              "t3": 600, "t4": 1100, "t5": 2500, "nsil": 36000, "silgf": 60580}
 AUDIO_WEIGHTS = [("gf", 8), ("rev", 2), ("clip", 2), ("quiet", 1), ("sil", 1), ("noise", 1), ("gf2", 1), ("head", 2),
                  ("mid", 2), ("cut", 3), ("tail", 2), ("t0", 1), ("t1", 1), ("t2", 1), ("t3", 1), ("t4", 1), ("t5", 1),
